@@ -17,6 +17,7 @@ from automata.fa.dfa import DFA
 from automata.fa.nfa import NFA
 
 from harness import fa_reuse as FR
+from harness import fa_special as FS
 from harness import gen
 from harness.common import (guarded, Ctx, Names, Toks, call, enc_dfa, enc_nfa, enc_word, exc_name, sym_names,
                             toks)
@@ -31,7 +32,14 @@ RULE = ("cases = (valid DFA or NFA, word); bounded-exhaustive small automata × 
         "targets, rows, final states, new states, a shared target set, a typo that makes the definition invalid for a "
         "while — and handed to the constructor again, default and mutable configuration: every automaton must follow "
         "a deep copy of the containers taken at its construction, earlier automata keep following theirs); NFAs whose "
-        "target collections are lists / tuples / frozensets; a case is non-trivial when the word is non-empty and the automaton has ≥2 "
+        "target collections are lists / tuples / frozensets; characters special to a Python mini-language (str.format "
+        "braces, %-formatting, regex / backslash, string.Template $, fnmatch, line separators / NUL / ESC, quotes, "
+        "case-mapping and zero-width Unicode — harness/fa_special.py) as alphabet symbols, as foreign symbols and in state "
+        "names: 4 closed-form machines per symbol pair × all words ≤3 over {x, y, foreign} + every snippet ('{0}', '%s', "
+        "'\\1', '${x}', …) + longer words, and shaped random automata over such alphabets with snippets spliced in "
+        "first / middle / last position; every reading API is judged directly against the textbook run of the plain "
+        "constructor arguments and the closed form (str methods only), any exception other than RejectionException is "
+        "a crash; a case is non-trivial when the word is non-empty and the automaton has ≥2 "
         "states; distinct = distinct (definition, word) pairs")
 ASSUMPTIONS = [
     "state names are hashable values; a definition with a state literally named None is refused by validate() since "
@@ -45,7 +53,10 @@ ASSUMPTIONS = [
     "sees them as lists used as sets",
 ]
 EXPLANATION = ("Theorems C01_* tie the model's reader to Mathlib's DFA/εNFA acceptance for every valid "
-               "automaton and every word; this run ties the model to the code by differential execution.")
+               "automaton and every word; this run ties the model to the code by differential execution.  The symbols of "
+               "the model are abstract; that the real reader treats EVERY character as just a symbol (also the ones that "
+               "are special to str.format, %-formatting, re, … when the input is spliced into a message on the rejection "
+               "path) is covered by the special-character family, which evaluates the property itself on the real code.")
 
 
 NONSTR = [5, None, ("a",), b"a", 1.5, frozenset(), ("a", "b"), 0, True]
@@ -427,6 +438,160 @@ def target_collection_family(ctx: Ctx, count: int):
                       "random_nfa_target_collections", enc3=enc3, defn=defn)
 
 
+# ------------------------------------------------------------------ round 5: characters special to a mini-language
+def _grab(f):
+    """("ok", value) / ("rej",) for the library's RejectionException / ("err", class name, text) for anything else —
+    SystemExit, RecursionError, MemoryError included: every one of them is a crash of the reader."""
+    try:
+        return ("ok", f())
+    except RejectionException:
+        return ("rej",)
+    except KeyboardInterrupt:
+        raise
+    except BaseException as e:  # noqa: BLE001
+        try:
+            text = ascii(str(e))[:100]
+        except BaseException:  # noqa: BLE001
+            text = "<unprintable>"
+        return ("err", type(e).__name__, text)
+
+
+def _stepwise(m, w, **kwargs):
+    got = []
+
+    def go():
+        for c in m.read_input_stepwise(w, **kwargs):
+            got.append(c)
+    return got, _grab(go)
+
+
+def build_special(kind: str, kw: dict, mutable: bool):
+    import automata.base.config as global_config
+    defn = FR.Defn(kind, kw)
+    global_config.allow_mutable_automata = mutable
+    try:
+        m = (NFA if kind == "NFA" else DFA)(**kw)
+    finally:
+        global_config.allow_mutable_automata = False
+    return m, defn, (enc_nfa if kind == "NFA" else enc_dfa)(defn)
+
+
+def _show(r):
+    return {"ok": lambda: f"returned {r[1]!r}", "rej": lambda: "raised RejectionException",
+            "err": lambda: f"raised {r[1]}({r[2]})"}[r[0]]()
+
+
+@guarded
+def check_special(ctx: Ctx, built, kind: str, kw: dict, w: str, origin: str, lang: str, closed=None,
+                  mutable: bool = False, with_model: bool = True):
+    """The PROPERTY on the real code for one (definition, word), every reading API, against the textbook run of
+    the definition as given (a deep copy of the plain constructor arguments) and, where there is one, against the
+    closed form of the language.  `built` = build_special(kind, kw, mutable)."""
+    m, defn, enc3 = built
+    is_nfa = kind == "NFA"
+    rtr, racc = (ref_nfa if is_nfa else ref_dfa)(defn, w)
+    if closed is not None and bool(closed) != racc:
+        raise AssertionError(f"the two oracles disagree on {w!a}: closed form {closed}, textbook run {racc}")
+    sigma = set(kw["input_symbols"])
+    foreign = [c for c in w if c not in sigma]
+    # --- distribution
+    ctx.stat("special:" + origin)
+    ctx.stat("special_lang:" + lang)
+    ctx.stat("special:" + ("accepted" if racc else "rejected"))
+    has_special = any(c in FS.SPECIAL_SET for c in w)
+    if has_special:
+        ctx.stat("special:" + ("accepted" if racc else "rejected") + "_word_with_special_char")
+    if not racc:
+        if foreign:
+            ctx.stat("special:rejected_foreign_symbol" + ("_special" if any(c in FS.SPECIAL_SET for c in foreign) else "_plain"))
+        elif not is_nfa and rtr[-1] is None:
+            ctx.stat("special:rejected_missing_transition")
+        elif is_nfa and not rtr[-1]:
+            ctx.stat("special:rejected_empty_configuration")
+        else:
+            ctx.stat("special:rejected_nonfinal_configuration")
+    if any(c in FS.SPECIAL_SET and c in sigma for c in w):
+        ctx.stat("special:word_has_special_alphabet_symbol")
+    for pos in FS.position_class(w, lambda c: c in FS.SPECIAL_SET):
+        ctx.stat("special:special_char_" + pos)
+    if any(isinstance(q, str) and any(c in FS.SPECIAL_SET for c in q) or isinstance(q, tuple) for q in kw["states"]):
+        ctx.stat("special:state_names_special_or_tuple")
+    # --- the property, API by API
+    want = ("ok", racc)
+    acc = _grab(lambda: m.accepts_input(w))
+    isin = _grab(lambda: w in m)
+    read = _grab(lambda: m.read_input(w))
+    steps, end = _stepwise(m, w)
+    wrong = []
+    if acc != want:
+        wrong.append(f"accepts_input {_show(acc)}, the textbook verdict is {racc}")
+    if isin != want:
+        wrong.append(f"`in` {_show(isin)}, the textbook verdict is {racc}")
+    if racc and not (read[0] == "ok" and read[1] == rtr[-1]):
+        wrong.append(f"read_input {_show(read)}, the textbook run ends in {rtr[-1]!r}")
+    if not racc and read != ("rej",):
+        wrong.append(f"read_input {_show(read)}, the word must be rejected with RejectionException")
+    if steps != rtr:
+        wrong.append(f"read_input_stepwise yielded {steps!r}, the textbook run is {rtr!r}")
+    if end[0] != ("ok" if racc else "rej"):
+        wrong.append(f"read_input_stepwise ended: {_show(end) if end[0] != 'ok' else 'without rejection'}"
+                     f" ({'accepted' if racc else 'rejected'} word)")
+    if not is_nfa:
+        steps2, end2 = _stepwise(m, w, ignore_rejection=True)
+        if steps2 != rtr or end2[0] != "ok":
+            wrong.append("read_input_stepwise(ignore_rejection=True): "
+                         + (_show(end2) if end2[0] != "ok" else f"yielded {steps2!r}, the textbook run is {rtr!r}"))
+    rp = dict(op="special", kind=kind, kw=repr(kw), word=w, mutable=mutable, lang=lang)
+    if wrong:
+        ctx.case(("S", kind, rp["kw"], w))
+        ctx.stat("special:FAIL")
+        ctx.prop_fail(f"{kind}(**{kw!a}) reading {w!a} [{lang}-special characters"
+                      + (", allow_mutable_automata" if mutable else "") + "]: " + "; ".join(wrong),
+                      dict(rp, textbook_accepts=racc), None)
+        return
+    if with_model:
+        check_one(ctx, m, w, is_nfa, origin, enc3=enc3, defn=defn, extra=("", rp))
+    else:
+        ctx.case(("S", kind, rp["kw"], w) if len(w) >= 1 and len(kw["states"]) >= 2 else None)
+        ctx.stat(origin)
+
+
+def special_symbol_family(ctx: Ctx, count: int):
+    """Alphabets and words over characters that are special to str.format / %-formatting / re / string.Template /
+    fnmatch / escapes and line separators / quoting / case mapping (harness/fa_special.py), as alphabet symbols and
+    as foreign symbols, in every position of accepted and rejected words."""
+    rng = ctx.rng
+    # (a) closed-form machines over every pair, bounded-exhaustive words; the model is asked for every 4th case
+    k = 0
+    for i, (lang, x, y, f) in enumerate(FS.PAIRS):
+        names = FS.NAME_STYLES[i % len(FS.NAME_STYLES)]
+        words = FS.corpus_words(lang, x, y, f)
+        for tag, kind, kw, pred in FS.closed_machines(x, y, names):
+            built = build_special(kind, kw, False)
+            for w in words:
+                k += 1
+                check_special(ctx, built, kind, kw, w, "special_closed_form_" + tag, lang, closed=pred(w),
+                              with_model=(k % 4 == 0))
+    ctx.exhaustive("4 closed-form machines ((xy)*, even #x, ends with xy via an ε-move, contains x) over each of "
+                   f"{len(FS.PAIRS)} symbol pairs of template-special characters × all words of length ≤3 over "
+                   "{x, y, a foreign special character} and every snippet of the pair's mini-language")
+    # (b) shaped random automata over special alphabets / with special state names, words with spliced snippets
+    for _ in range(count):
+        lang, snips, alpha = FS.rand_alphabet(rng)
+        kind = "NFA" if rng.random() < 0.5 else "DFA"
+        n = rng.randint(1, 5)
+        names = FS.rand_names(rng, n)
+        if kind == "NFA":
+            kw = FR.nfa_kw(rng, gen.rand_nfa(rng, n, alphabet=alpha, names=names, min_states=n), "set")
+        else:
+            kw = FR.dfa_kw(gen.rand_dfa(rng, n, alphabet=alpha, names=names, min_states=n, junk_rows=False))
+        mutable = rng.random() < 0.15
+        built = build_special(kind, kw, mutable)
+        for _ in range(4):
+            check_special(ctx, built, kind, kw, FS.rand_word(rng, alpha, snips), "special_random_" + kind.lower(), lang,
+                          mutable=mutable)
+
+
 # ------------------------------------------------------------------ big cases (oracle only)
 def big_chain_nfa(n: int, cycle: bool):
     """0 -ε-> 1 -ε-> … -ε-> n-1 (-ε-> 0 if cycle); even states loop on 'a'; n-1 reads 'b' into 0; F = {n-1}."""
@@ -603,6 +768,8 @@ def run(ctx: Ctx):
     # round 4 (after the older families: their case streams are unchanged)
     reuse_family(ctx, ctx.budget(250, 6000))
     target_collection_family(ctx, ctx.budget(300, 6000))
+    # round 5 (again after the older families)
+    special_symbol_family(ctx, ctx.budget(400, 12000))
 
 
 def replay(ctx: Ctx, path: str) -> int:
@@ -613,6 +780,11 @@ def replay(ctx: Ctx, path: str) -> int:
         none_state_corpus(ctx)
     elif rp.get("op") == "reuse":
         run_scenario(ctx, eval(rp["scenario"], env), "replay")  # repr() of a scenario of harness/fa_reuse.py
+    elif rp.get("op") == "special":
+        kw = eval(rp["kw"], {"frozenset": frozenset})  # repr() of plain constructor arguments (harness/fa_special.py)
+        mutable = bool(rp.get("mutable", False))
+        check_special(ctx, build_special(rp["kind"], kw, mutable), rp["kind"], kw, rp["word"], "replay",
+                      rp.get("lang", "?"), mutable=mutable)
     elif rp.get("op") == "big":
         build, is_nfa = BIG[rp["name"]]
         check_big(ctx, rp["name"], build, [rp["word"]] if "word" in rp else BIG_WORDS, is_nfa)
